@@ -25,6 +25,9 @@ def run(ctx):
             core.report(ctx, "the checksum functions ended the process with signal %d while being called on valid buffers (after %d logged calls): %s" % (
                 -p.returncode, sum(1 for _ in open(out)) if os.path.exists(out) else 0, p.stderr[-300:]), {"kind": "output", "stdout": p.stderr[-2000:]})
             return core.finish(ctx, LEVEL, {"evaluations": 0, "distinct_nontrivial": 0}, rule="the run ended abnormally")
+        if p.returncode == 1 and "MISMATCH first checksum" in p.stdout:
+            core.report(ctx, "the first checksum of the process, asked for by an initialiser running before main, is wrong: " + p.stdout[-200:], {"kind": "output", "stdout": p.stdout[-2000:]})
+            return core.finish(ctx, LEVEL, {"evaluations": 1, "distinct_nontrivial": 1}, rule="the run ended at the first checksum")
         raise core.Infra("codec_drv crc failed: " + p.stderr[-500:])
     recs = [json.loads(l) for l in open(out)]
     sse = any(r.get("sse42") for r in recs if r["e"] == "Stream")
